@@ -1,5 +1,6 @@
 import AgdbCodec.Model.Conv
 import AgdbCodec.Model.ValueIndex
+import AgdbCodec.Model.Derive
 /-
   Line-protocol driver (`codecmodel`).  One output line per input line.
   Streams: `enc` / `dec` / `tovec` (C20, C21), `vst` / `vld` / `kv` (C12), `tdv` / `fde` / `rt` /
@@ -227,20 +228,270 @@ def stepKv (m : Mode) (s : KvState) (toks : List String) : KvState × String :=
     else (s, "err:InvalidIndex")
   | _ => (s, "bad-op")
 
-partial def loop (m : Mode) (hin hout : IO.FS.Stream) (kv : KvState) : IO Unit := do
+/-! ### C22 stream: type descriptors, user values -/
+
+def takeUntil (stop : Char → Bool) : List Char → List Char × List Char
+  | [] => ([], [])
+  | c :: t => if stop c then ([], c :: t) else let (a, b) := takeUntil stop t; (c :: a, b)
+
+def keyBytes (cs : List Char) : List Nat := (String.ofList cs).toUTF8.toList.map UInt8.toNat
+
+def pKind (cs : List Char) : Option (Kind × List Char) :=
+  let (w, rest) := takeWhileC (fun c => c.isAlphanum) cs
+  let name := String.ofList w
+  match rest with
+  | '[' :: r =>
+    match pSchema r with
+    | some (σ, ']' :: r') =>
+      if name == "c" then some (.custom σ, r') else if name == "vc" then some (.vcustom σ, r') else none
+    | _ => none
+  | _ =>
+    let k : Option Kind :=
+      if name == "u64" then some .u64 else if name == "i64" then some .i64
+      else if name == "f64" then some .f64 else if name == "str" then some .str
+      else if name == "bool" then some .bool else if name == "i32" then some .i32
+      else if name == "u32" then some .u32 else if name == "bytes" then some .bytes
+      else if name == "vi64" then some .vi64 else if name == "vu64" then some .vu64
+      else if name == "vf64" then some .vf64 else if name == "vstr" then some .vstr
+      else if name == "vbool" then some .vbool else if name == "ip" then some .ip else none
+    k.map fun k => (k, rest)
+
+mutual
+  /-- `T(<f>;<f>;…)` -/
+  partial def pType (cs : List Char) : Option (FieldList × List Char) :=
+    match cs with
+    | 'T' :: '(' :: ')' :: r => some (.nil, r)
+    | 'T' :: '(' :: r => pFieldsT r
+    | _ => none
+  partial def pFieldsT (cs : List Char) : Option (FieldList × List Char) :=
+    match pFieldT cs with
+    | some (f, ';' :: r) =>
+      match pFieldsT r with
+      | some (t, r') => some (.cons f t, r')
+      | none => none
+    | some (f, ')' :: r) => some (.cons f .nil, r)
+    | _ => none
+  partial def pFieldT (cs : List Char) : Option (Field × List Char) :=
+    let (tag, rest) := takeUntil (· == ':') cs
+    match String.ofList tag, rest with
+    | "p", ':' :: r =>
+      let (key, r1) := takeUntil (· == ':') r
+      (match r1 with
+       | ':' :: r2 => (pKind r2).map fun (k, r3) => (.plain (keyBytes key) k, r3)
+       | _ => none)
+    | "o", ':' :: r =>
+      let (key, r1) := takeUntil (· == ':') r
+      (match r1 with
+       | ':' :: r2 => (pKind r2).map fun (k, r3) => (.opt (keyBytes key) k, r3)
+       | _ => none)
+    | "f", ':' :: r => (pType r).map fun (t, r') => (.flatten t, r')
+    | "s", ':' :: r => (pKind r).map fun (k, r') => (.skip k, r')
+    | "so", ':' :: r => (pKind r).map fun (k, r') => (.skipOpt k, r')
+    | "i", ':' :: 'o' :: r => some (.dbId .optDbId, r)
+    | "i", ':' :: 'q' :: r => some (.dbId .optQueryId, r)
+    | "i", ':' :: 'd' :: r => some (.dbId .dbId, r)
+    | _, _ => none
+end
+
+def parseTypeDesc (s : String) : Option TypeDesc :=
+  match pType s.toList with
+  | some (fs, []) => some ⟨fs, none⟩
+  | some (fs, '@' :: name) => if name.isEmpty then none else some ⟨fs, some (keyBytes name)⟩
+  | _ => none
+
+def pInt (cs : List Char) : Option (Int × List Char) :=
+  let (neg, r) := match cs with | '-' :: q => (true, q) | q => (false, q)
+  let (d, r') := takeWhileC Char.isDigit r
+  (parseNatChars d).map fun n => (if neg then -(n : Int) else (n : Int), r')
+
+mutual
+  /-- `{<fv>,<fv>,…}` directed by the field list -/
+  partial def pUVals (fs : FieldList) (cs : List Char) : Option (UValList × List Char) :=
+    match cs with
+    | '{' :: r => pUValsIn fs r true
+    | _ => none
+  partial def pUValsIn (fs : FieldList) (cs : List Char) (first : Bool) :
+      Option (UValList × List Char) :=
+    match fs with
+    | .nil => (match cs with | '}' :: r => some (.nil, r) | _ => none)
+    | .cons f t =>
+      let cs' := if first then some cs else (match cs with | ',' :: r => some r | _ => none)
+      match cs' with
+      | none => none
+      | some cs1 =>
+        match pUVal f cs1 with
+        | some (v, r) => (pUValsIn t r false).map fun (vs, r') => (.cons v vs, r')
+        | none => none
+  partial def pUVal (f : Field) (cs : List Char) : Option (UVal × List Char) :=
+    match f with
+    | .plain _ _ | .skip _ => (pVal cs).map fun (v, r) => (.val v, r)
+    | .opt _ _ | .skipOpt _ =>
+      (match cs with
+       | 'N' :: r => some (.none, r)
+       | 'S' :: r => (pVal r).map fun (v, r') => (.some v, r')
+       | _ => none)
+    | .flatten t => (pUVals t cs).map fun (vs, r) => (.nested vs, r)
+    | .dbId _ =>
+      (match cs with
+       | 'N' :: r => some (.id none, r)
+       | 'S' :: r => (pInt r).map fun (i, r') => (.id (some i), r')
+       | _ => none)
+end
+
+def parseUVal (fs : FieldList) (s : List Char) : Option UValList :=
+  match pUVals fs s with
+  | some (v, []) => some v
+  | _ => none
+
+mutual
+  partial def showUVals : UValList → String
+    | vs => "{" ++ showUValsIn vs ++ "}"
+  partial def showUValsIn : UValList → String
+    | .nil => ""
+    | .cons v .nil => showUVal v
+    | .cons v t => showUVal v ++ "," ++ showUValsIn t
+  partial def showUVal : UVal → String
+    | .val v => showVal v
+    | .none => "N"
+    | .some v => "S" ++ showVal v
+    | .nested vs => showUVals vs
+    | .id none => "N"
+    | .id (some i) => "S" ++ toString i
+end
+
+def showKvs (kvs : List (Val × Val)) : String :=
+  "[" ++ String.intercalate "," (kvs.map fun kv => showVal kv.1 ++ "=" ++ showVal kv.2) ++ "]"
+
+partial def pKvsIn (cs : List Char) (first : Bool) : Option (List (Val × Val) × List Char) :=
+  match cs with
+  | ']' :: r => some ([], r)
+  | _ =>
+    let cs' := if first then some cs else (match cs with | ',' :: r => some r | _ => none)
+    match cs' with
+    | none => none
+    | some c1 =>
+      match pVal c1 with
+      | some (k, '=' :: r) =>
+        (match pVal r with
+         | some (v, r') => (pKvsIn r' false).map fun (t, r'') => ((k, v) :: t, r'')
+         | none => none)
+      | _ => none
+
+def parseKvs (s : String) : Option (List (Val × Val)) :=
+  match s.toList with
+  | '[' :: r => (match pKvsIn r true with | some (k, []) => some k | _ => none)
+  | _ => none
+
+/-- the `db_id` of a user value (first `id` field at top level) -/
+def uvalId : UValList → Option Int
+  | .nil => none
+  | .cons (.id i) _ => i
+  | .cons _ t => uvalId t
+
+structure DeriveState where
+  db : Db := {}
+  types : List (Int × TypeDesc) := []
+
+def DeriveState.setType (s : DeriveState) (id : Int) (τ : TypeDesc) : DeriveState :=
+  { s with types := (s.types.filter (·.1 != id)) ++ [(id, τ)] }
+
+def insertionSortIds (l : List (Int × TypeDesc)) : List (Int × TypeDesc) :=
+  l.mergeSort fun a b => a.1 ≤ b.1
+
+def insOne (m : Mode) (db : Db) (τ : TypeDesc) (v : UValList) : Outcome (Db × Int) :=
+  db.insertElement (uvalId v) (typeValues τ v)
+
+def splitOnBar (cs : List Char) : List (List Char) :=
+  (String.ofList cs).splitOn "|" |>.map String.toList
+
+def stepDerive (m : Mode) (s : DeriveState) (toks : List String) : DeriveState × String :=
+  match toks with
+  | ["tdv", _, td, uv] =>
+    (match parseTypeDesc td with
+     | some τ =>
+       (match parseUVal τ.fields uv.toList with
+        | some v => (s, showKvs (typeValues τ v))
+        | none => (s, "bad-op"))
+     | none => (s, "bad-op"))
+  | ["keys", _, td] =>
+    (match parseTypeDesc td with
+     | some τ => (s, "[" ++ String.intercalate "," (((dbKeys m τ.fields).getD []).map showVal) ++ "]")
+     | none => (s, "bad-op"))
+  | ["fde", _, td, id, kvs] =>
+    (match parseTypeDesc td, pInt id.toList, parseKvs kvs with
+     | some τ, some (i, []), some kvs =>
+       (s, showOutcome showUVals (fromDbElement m τ.fields i kvs))
+     | _, _, _ => (s, "bad-op"))
+  | ["ins", _, td, uv] =>
+    (match parseTypeDesc td with
+     | some τ =>
+       (match parseUVal τ.fields uv.toList with
+        | some v =>
+          (match insOne m s.db τ v with
+           | .ok (db', id) =>
+             let s' := ({ s with db := db' }).setType id τ
+             (s', showOutcome (fun r => toString id ++ " " ++ showUVals r) (db'.selectAs m τ id))
+           | .err k => (s, "err:" ++ k.toStr)
+           | _ => (s, "bad-op"))
+        | none => (s, "bad-op"))
+     | none => (s, "bad-op"))
+  | ["insb", _, td, uvs] =>
+    (match parseTypeDesc td with
+     | some τ =>
+       let parts := (splitOnBar uvs.toList).map (parseUVal τ.fields)
+       if parts.all Option.isSome then
+         let vs := parts.filterMap id
+         -- one query: all-or-nothing
+         let r : Outcome (Db × List Int) := vs.foldl (fun acc v =>
+           acc.bind fun (db, ids) => (insOne m db τ v).bind fun (db', id) => .ok (db', ids ++ [id]))
+           (.ok (s.db, []))
+         (match r with
+          | .ok (db', ids) =>
+            let s' := ids.foldl (fun st id => st.setType id τ) { s with db := db' }
+            let outs := ids.map fun id => (id, db'.selectAs m τ id)
+            (match outs.find? (fun o => !o.2.isOk) with
+             | some (_, .err k) => (s', "err:" ++ k.toStr)
+             | some _ => (s', "bad-op")
+             | none =>
+               (s', String.intercalate " " ("ok" :: outs.map fun o =>
+                 toString o.1 ++ ":" ++ (match o.2 with | .ok r => showUVals r | _ => "?"))))
+          | .err k => (s, "err:" ++ k.toStr)
+          | _ => (s, "bad-op"))
+       else (s, "bad-op")
+     | none => (s, "bad-op"))
+  | ["all"] =>
+    let outs := (insertionSortIds s.types).map fun (id, τ) =>
+      toString id ++ ":" ++
+        (match s.db.selectAs m τ id with
+         | .ok r => showUVals r
+         | .err k => "err:" ++ k.toStr
+         | _ => "?")
+    (s, String.intercalate " " ("ok" :: outs))
+  | _ => (s, "bad-op")
+
+structure DriverState where
+  kv : KvState := {}
+  dv : DeriveState := {}
+
+partial def loop (m : Mode) (hin hout : IO.FS.Stream) (st : DriverState) : IO Unit := do
   let line ← hin.getLine
   if line.isEmpty then
     hout.flush
   else
     let toks := (line.trimAscii.toString.splitOn " ").filter (· ≠ "")
-    let (kv', out) :=
+    let (st', out) :=
       match toks with
-      | ["case", n] => (({} : KvState), "case " ++ n)
-      | "enc" :: _ | "dec" :: _ | "tovec" :: _ => (kv, stepSer m toks)
-      | "kv" :: _ | "reopen" :: _ => stepKv m kv toks
-      | _ => (kv, "bad-op")
+      | ["case", n] => (({} : DriverState), "case " ++ n)
+      | "enc" :: _ | "dec" :: _ | "tovec" :: _ => (st, stepSer m toks)
+      | "kv" :: _ | "reopen" :: _ =>
+        let (kv', o) := stepKv m st.kv toks
+        ({ st with kv := kv' }, o)
+      | "tdv" :: _ | "keys" :: _ | "fde" :: _ | "ins" :: _ | "insb" :: _ | "all" :: _ =>
+        let (dv', o) := stepDerive m st.dv toks
+        ({ st with dv := dv' }, o)
+      | _ => (st, "bad-op")
     hout.putStrLn out
-    loop m hin hout kv'
+    loop m hin hout st'
 
 def main (args : List String) : IO Unit := do
   let m := if args.contains "--legacy" then Mode.legacy else Mode.fixed
